@@ -20,7 +20,7 @@ import (
 func init() {
 	register(&Property{
 		ID:       "C05",
-		Patterns: []string{"./tick/...", "./udf/...", ".", "./client/v1", "./services/task_store"},
+		Patterns: []string{"./tick/...", "./udf/...", ".", "./client/v1", "./services/task_store", "./influxdb", "./edge"},
 		Run:      runC05,
 		Explanation: "Crash classes decided at named sites, on every path: (1) the frames that must contain a panic own a deferred recover() that is executed unconditionally and does not re-panic (node goroutine, expression.Eval, match handler, scheduler worker, HTTP recovery, parser and evaluator entry points); " +
 			"(2) lexer cursor typestate: backup() is reached only when the width it subtracts is the width of the rune last consumed; (3) the parser releases the lexer goroutine on its error exit; " +
@@ -101,6 +101,8 @@ type c05Role struct {
 func c05Recover(c *core.Ctx) {
 	roles := []c05Role{
 		{"", "node", "start", true, true},
+		{"", "QueryNode", "Start", true, true},     // F127: runs doQuery, which decodes the server's answers, outside node.start's recover
+		{"", "FluxQueryNode", "Start", true, true}, // F127
 		{"tick/stateful", "expression", "Eval", false, true},
 		{"services/alert", "matchHandler", "Handle", false, true},
 		{"task/backend/scheduler", "TreeScheduler", "work", true, true},
@@ -133,6 +135,7 @@ func c05Recover(c *core.Ctx) {
 		okFrame := false
 		for _, d := range defers {
 			var body *ast.BlockStmt
+			info = pkg.TypesInfo // a deferred method of another package (mu.Unlock) must not leave its type information behind
 			switch f := ast.Unparen(d.Call.Fun).(type) {
 			case *ast.FuncLit:
 				body = f.Body
